@@ -32,6 +32,10 @@ CHECKS = {
    technique="deterministic simulation: the device is a second party taking turns with the program - a seeded script of in-segment memory reads/writes per device call, executed in lock-step by the reference machine; the real InMemoryScreen/PcIO/KeyboardIO stack driven by generated command-stream programs and compared with a reference decoder",
    text="seeded exploration of device schedules (which call touches which in-segment address with which value) x engines x storage modes; valid and malformed screen command streams at w in {16,32,64}",
    note="trusted: reference machine and reference screen decoder; device writes outside segments are out of scope by the statement; pygame is not installed, PcIO is assembled from its real headless components"),
+ "C11": dict(engine="enginesim", category="exploration", design="5.3", timeout=(400, 2700),
+   technique="deterministic simulation with fault injection on an ASan+UBSan build of the working-tree _fjcore.c: seeded knob swarm, adversarial byte-wise images, Memory-API operation sequences, device accesses at any 64-bit address, failing callbacks, and the k-th allocation failing (alloc shim), every death attributed to one case by re-running it alone",
+   text="seeded exploration; the sanitizers are the invariant monitor (out-of-bounds, use-after-free, UB such as shifts and signed overflow), refcounts of the callbacks are compared before/after, and allocation-failure indices are enumerated per sampled run",
+   note="trusted: gcc ASan/UBSan instrumentation at -O1 is representative of the -O2 build for memory errors; leaks, MSVC and 32-bit size_t are not covered"),
  "C18": dict(engine="enginesim", category="fault_enumeration", design="5.7", timeout=(300, 2400),
    technique="deterministic simulation with fault injection: the scripted device fails at every IO call index of each sampled run (library IO error, EOF, foreign exception, KeyboardInterrupt, BaseException, bad __bool__), plus pending-SIGINT injection at chosen bytecode instructions / IO calls; oracle = reference machine stopped at the micro-step",
    text="per sampled program the failing call index is enumerated completely (<=48 calls) with two fault kinds per index on native (flat/paged/ring), fast and featured; programs are sampled",
